@@ -15,7 +15,7 @@ func judgeLoad(f *Forest, res LoadResult) (clauses []string, details []map[strin
 	add := func(c string, d map[string]any) { clauses = append(clauses, c); details = append(details, d) }
 	if f.Expect != "ok" {
 		if res.Err == nil {
-			add("bad-reference-must-fail:"+f.Expect, map[string]any{"expected": "load error (" + f.Expect + ")", "observed": "load succeeded"})
+			add("bad-reference-must-fail:"+f.Expect+":"+f.Kind, map[string]any{"expected": "load error (" + f.Expect + ")", "observed": "load succeeded"})
 		}
 		return
 	}
